@@ -646,7 +646,21 @@ func stressHedge(seed int64, scale int) int {
 				}
 			}
 		}
+		// in a third of the runs the delay comes from a delay function and grows with every hedge: hedge k may not start before
+		// the sum of the first k delays
+		hedgeDelays := make([]time.Duration, n)
+		for k := range hedgeDelays {
+			hedgeDelays[k] = delay
+		}
 		b := hedgepolicy.BuilderWithDelay[int](delay).WithMaxHedges(maxHedges)
+		if rng.Intn(3) == 0 {
+			for k := range hedgeDelays {
+				hedgeDelays[k] = delay * time.Duration(k+1)
+			}
+			b = hedgepolicy.BuilderWithDelayFunc[int](func(e failsafe.ExecutionAttempt[int]) time.Duration {
+				return hedgeDelays[min(e.Hedges(), len(hedgeDelays)-1)]
+			}).WithMaxHedges(maxHedges)
+		}
 		if cancelOn77 {
 			b.CancelIf(func(r int, err error) bool { return r >= 7700 })
 		}
@@ -737,7 +751,11 @@ func stressHedge(seed int64, scale int) int {
 		}
 		mu.Lock()
 		for k, ht := range hedgeTimes {
-			if ht.Sub(t0) < time.Duration(k+1)*delay-20*time.Microsecond {
+			var due time.Duration
+			for j := 0; j <= k && j < len(hedgeDelays); j++ {
+				due += hedgeDelays[j]
+			}
+			if ht.Sub(t0) < due-20*time.Microsecond {
 				v.add("a hedge started before its delays had elapsed")
 			}
 			if ht.After(ret) {
